@@ -3,10 +3,7 @@
 import importlib.util, json, os, sys
 V = os.path.dirname(os.path.dirname(os.path.abspath(__file__)))
 sys.path.insert(0, os.path.join(V, "engine", "grinlint"))
-NA = {
-    "C07": "MMR roots/positions/Merkle proofs follow the definition: every clause quantifies over 64-bit position arithmetic and hash values; no structural clause is both necessary and specific, a finer rule would freeze source text (DESIGN.md section 4). The view-bound sibling rule that protects MMR views is claimed under C02/C08.",
-    "C12": "aggregation, cut-through and hydration are faithful: a value-level algebraic statement (multiset union minus matched pairs, offset sums, grouping independence, block identity); nothing beyond 'result is sorted' is visible in control flow, which implies none of the clauses (DESIGN.md section 4).",
-}
+NA = {}
 props = [json.loads(l) for l in open(os.path.join(V, "properties.jsonl"))]
 checks, na = [], []
 for p in props:
